@@ -37,7 +37,10 @@ DetClauses(r) ==
              r.cls = "bitwise" => ((\A k \in g1 : r.d[k] = r.d[1]) /\ (\A k \in g2 : r.d[k] = r.d[r.nlow + 1]))>>,
            <<"bitwise-across-spgemm-switch",
              (r.cls = "bitwise" /\ r.nlow >= 1 /\ r.nlow < m) => r.d[1] = r.d[r.nlow + 1]>>,
-           <<"rounding-across-thread-counts", r.cls = "rounding" => r.spread <= r.bound>> >>
+           <<"rounding-across-thread-counts", r.cls = "rounding" => r.spread <= r.bound>>,
+           \* the same thread count twice gives the same bits (items whose reduction order is fixed by the
+           \* static schedule; the unordered critical-section accumulation of emin is exempt: repro = FALSE)
+           <<"reproducible-at-fixed-thread-count", r.repro => r.repeat_same>> >>
 
 Clauses(r) == CASE r.k = "sched" -> SchedClauses(r)
                 [] r.k = "det" -> DetClauses(r)
